@@ -79,10 +79,10 @@ theorem writebackRoot_ok {d : Disk} {idx : Nat} {dir : Directory} (g : RootGeo d
   rfl
 
 /-- **C04, acceptance** (root directory): a `put` whose file image is for this file system, whose path has been
-accepted by `prepare_to_write` with a slot of the root directory, whose attribute byte is not that of a label or directory (valid fresh name, the directory is not full), whose
+accepted by `prepare_to_write` with a slot of the root directory, whose attribute byte is not that of a label or directory, whose chunks and length pass `put`'s own test (`storable`) (valid fresh name, the directory is not full), whose
 chunks `0 ..< end` are all present and whose `end` does not exceed the free count, is accepted. -/
 theorem fat_fits_is_accepted {d d1 : Disk} {f1 : Array Nat} {fi : FImg} {now : Stamp} {name : Bytes} {idx : Nat} {dir : Directory}
-    (hfs : fi.fsOk = true) (hcl : fi.chunkLen = d.bpb.blockSize) (hacc : fi.dirOrLabel = false)
+    (hfs : fi.fsOk = true) (hcl : fi.chunkLen = d.bpb.blockSize) (hacc : fi.dirOrLabel = false) (hsto : fi.storable = true)
     (hprep : prepareToWrite fi.fullPath d = (.ok (name, none, idx, dir), d1))
     (w : WOk d1 f1) (g : RootGeo d1 idx dir.length)
     (hmeta : 4 ≤ fi.eof.length ∧ 1 ≤ fi.access.length ∧ 5 ≤ fi.created.length ∧ 4 ≤ fi.modified.length)
@@ -101,6 +101,6 @@ theorem fat_fits_is_accepted {d d1 : Disk} {f1 : Array Nat} {fi : FImg} {now : S
   unfold put
   simp only [hfs, Bool.not_true, Bool.false_eq_true, if_false, M_bind_apply, M.get]
   have : ¬ (fi.chunkLen ≠ d.bpb.blockSize) := by simp [hcl]
-  simp only [this, if_false, hacc, Bool.false_eq_true, M_bind_apply, hprep, M.lift, hentry, hset, hw]
+  simp only [this, if_false, hacc, hsto, Bool.not_true, Bool.false_eq_true, M_bind_apply, hprep, M.lift, hentry, hset, hw]
 
 end A2Verif.FsFat
